@@ -2068,6 +2068,13 @@ func abs(x float64) float64 {
 // to approximate the visual layout of the original document. This is useful
 // for forms, invoices, or any document where spatial positioning carries meaning.
 // The output is designed to look correct when displayed in a monospace font.
+// Bounds for the character grid of extractPreserveLayout: positions are
+// numbers from the file and must not be turned into unbounded padding.
+const (
+	maxLayoutColumns    = 2000
+	maxLayoutBlankLines = 200
+)
+
 func (e *Extractor) extractPreserveLayout(fragments []text.TextFragment, pageWidth float64) string {
 	if len(fragments) == 0 {
 		return ""
@@ -2191,6 +2198,9 @@ func (e *Extractor) extractPreserveLayout(fragments []text.TextFragment, pageWid
 			if gapInLines < 1 {
 				gapInLines = 1
 			}
+			if gapInLines > maxLayoutBlankLines {
+				gapInLines = maxLayoutBlankLines // coordinates come from the file
+			}
 
 			// Add newlines (1 for normal line break, more for vertical gaps)
 			for i := 0; i < gapInLines; i++ {
@@ -2209,6 +2219,9 @@ func (e *Extractor) extractPreserveLayout(fragments []text.TextFragment, pageWid
 			targetCol := int(frag.X / charWidth)
 			if targetCol < 0 {
 				targetCol = 0
+			}
+			if targetCol > maxLayoutColumns {
+				targetCol = maxLayoutColumns // coordinates come from the file
 			}
 
 			// Add spaces to reach target column
